@@ -7,6 +7,7 @@ import (
 	"path/filepath"
 	"sort"
 	"strings"
+	"syscall"
 	"time"
 
 	"github.com/opencontainers/go-digest"
@@ -360,6 +361,7 @@ type c17Out struct {
 	Viol   []h.Violation `json:"viol"`
 	Execs  int           `json:"execs"`
 	Crash  int           `json:"crash"`
+	Fault  int           `json:"fault"`
 	Sample string        `json:"sample"`
 }
 
@@ -479,6 +481,44 @@ func c17Run(a c17Arg) (out c17Out) {
 			}()
 		}()
 	}
+	// 3. every mutating call of the conversion fails with an I/O error instead (the process lives on): whatever the
+	// interrupted first access answered, an ordinary tag push and tag delete in the same process followed by a restart
+	// must give the uninterrupted result - "interrupting it at any point and repeating it gives the same result"
+	for k := 1; k <= nmut; k++ {
+		func() {
+			w := h.NewWorld(conf, vrt.Config{})
+			defer w.Destroy()
+			what := fmt.Sprintf("I/O error at mutating call %d, tag push and delete, restart", k)
+			defer func() {
+				if p := recover(); p != nil {
+					if !vrt.IsAbort(p) {
+						panic(p)
+					}
+					sig, detail := h.AbortSignature()
+					tagv([]h.Violation{h.V("conversion-terminates", "hang-after-failed-conversion:"+sig, "after an I/O error inside the conversion a request never returns: %s", detail)}, what)
+				}
+			}()
+			vos.FailAt(vos.MutCount()+k, syscall.EIO)
+			c17Observe(w, cf, l) // answers during and right after the fault are not judged
+			w.AutoViol = nil
+			out.Fault++
+			u := cf.Items["U"]
+			w.PutManifest("r", "afterfault", u.MT, u.Data)
+			w.Delete("/v2/r/manifests/afterfault")
+			w.AutoViol = nil
+			_ = w.Reopen()
+			vs, obs := c17Observe(w, cf, l)
+			if len(vs) > 0 || obs != ref {
+				for i := range vs {
+					vs[i].Sig = "after-failed-conversion:" + vs[i].Sig
+				}
+				if len(vs) == 0 {
+					vs = append(vs, h.V("repeatable-after-interruption", "after-failed-conversion:result-differs", "result %s differs from the uninterrupted %s", obs, ref))
+				}
+				tagv(vs, what)
+			}
+		}()
+	}
 	return out
 }
 
@@ -493,7 +533,7 @@ func init() {
 	h.Checks["C17"] = func(tier string) int {
 		rep := h.NewReport("C17", tier, "fault_enumeration")
 		rep.Rule = "every layout of a generated family (fallback indexes for sha256 and sha512 subjects listing subsets of artifacts with accurate / stale-size / stale-type / stale-annotation descriptors, missing manifests, artifacts of another subject, two tags adoptable for one subject, a coexisting converted response, tagged and untagged artifacts; plus, generated exhaustively: every assignment 'absent or listed in mode m' of three artifacts (one of them naming the other subject) to one fallback tag x missing manifest [x coexisting converted response x tagged artifacts in the thorough tier], and every pair of such assignments to two fallback tags (two modes quick, four modes thorough)) is written to disk by the harness and opened with a writable directory store and with a memory store over the directory; " +
-			"referrers(S) must be exactly the listed artifacts that exist and name S, all other tags / manifests / blobs stay served, index.json is marked converted, a second round and a reopen give the same result, the first access terminates (no enabled thread = dead-lock), and for every mutating filesystem call of the conversion a crash before it followed by a reopen gives the uninterrupted result; non-trivial = crash images + conversions executed"
+			"referrers(S) must be exactly the listed artifacts that exist and name S, all other tags / manifests / blobs stay served, index.json is marked converted, a second round and a reopen give the same result, the first access terminates (no enabled thread = dead-lock), and for every mutating filesystem call of the conversion a crash before it followed by a reopen gives the uninterrupted result, and so does an I/O error returned by it followed by a tag push and delete in the same process and a restart; non-trivial = crash images + conversions executed"
 		rep.Assume = []string{"whether the fallback tag itself stays listed is left open", "process-crash model"}
 		lays := c17Layouts(tier)
 		var jobs []h.Job
@@ -528,11 +568,11 @@ func init() {
 			for _, v := range o.Viol {
 				rep.AddViolation(v)
 			}
-			rep.Evals += o.Execs + o.Crash
-			rep.Traces += o.Execs + o.Crash
-			rep.NonTrivial += o.Execs + o.Crash
+			rep.Evals += o.Execs + o.Crash + o.Fault
+			rep.Traces += o.Execs + o.Crash + o.Fault
+			rep.NonTrivial += o.Execs + o.Crash + o.Fault
 			rep.States += o.Execs
-			rep.Trans += o.Crash
+			rep.Trans += o.Crash + o.Fault
 			if len(rep.Samples) < 6 && o.Sample != "" {
 				rep.Samples = append(rep.Samples, meta[i].Store+": "+o.Sample)
 			}
